@@ -186,6 +186,26 @@ func (fr *Frame) doCall(st *State, c *ssa.CallCommon, pos token.Pos, site ssa.In
 	for _, a := range c.Args {
 		args = append(args, fr.val(st, a))
 	}
+	// a function-valued field or variable that the contract of the function
+	// under verification declares effect-free by name (`calls Name pure`):
+	// assumed (listed) not to write caller-visible memory
+	if fv.X == nil {
+		if top := fr.x.top; top != nil && top.contract != nil {
+			if n := lastCallName(c); n != "" && top.contract.Calls[n] == "pure" {
+				x := fr.x
+				x.vc.diag("%s: function value %s assumed not to write caller-visible memory (calls %s pure)", fr.fn.String(), n, n)
+				x.bumpAllocTop(st)
+				sig := c.Signature()
+				var res []*Val
+				for i := 0; i < sig.Results().Len(); i++ {
+					r := x.freshVal("cb", sig.Results().At(i).Type())
+					x.refFacts(st, r)
+					res = append(res, r)
+				}
+				return res
+			}
+		}
+	}
 	return fr.callValue(st, fv, args, pos, c.Signature())
 }
 
@@ -539,7 +559,18 @@ func (fr *Frame) callWithContract(st *State, c *FuncContract, fn *ssa.Function, 
 		env.vars["recv"] = args[0]
 	}
 	short := shortName(name)
+	abstractedCall := false
+	if top := x.top; top != nil && top.contract != nil && top.contract.Abstract != nil {
+		sn := short
+		if i := strings.LastIndex(sn, "."); i >= 0 {
+			sn = sn[i+1:]
+		}
+		abstractedCall = top.contract.Abstract[sn]
+	}
 	for _, r := range c.Requires {
+		if abstractedCall {
+			break // neither checked nor assumed: the callee is treated as an unknown function with this frame
+		}
 		g, err := env.evalBool(r.Expr)
 		if err != nil {
 			x.vc.diag("%s: requires of %s: %v", fr.fn.String(), name, err)
@@ -655,6 +686,23 @@ func (fr *Frame) callWithContract(st *State, c *FuncContract, fn *ssa.Function, 
 			}
 		}
 	}
+	// local refinement by the function under verification: ghost variables this
+	// callee is taken to update
+	calleeKey := short
+	if i := strings.LastIndex(calleeKey, "."); i >= 0 {
+		calleeKey = calleeKey[i+1:]
+	}
+	var extraEns []*Clause
+	if top := x.top; top != nil && top.contract != nil {
+		for _, a := range top.contract.CalleeAsg[calleeKey] {
+			if strings.HasPrefix(a, "ghost.") {
+				if gc := x.ghostCell(strings.TrimPrefix(a, "ghost.")); gc != nil {
+					st.cells[gc] = x.freshVal(gc.name, gc.ty)
+				}
+			}
+		}
+		extraEns = top.contract.CalleeEns[calleeKey]
+	}
 	// the callee may have allocated
 	x.bumpAllocTop(st)
 	// results
@@ -692,6 +740,15 @@ func (fr *Frame) callWithContract(st *State, c *FuncContract, fn *ssa.Function, 
 			x.vc.diag("%s: ensures of %s: %v", fr.fn.String(), name, err)
 			continue
 		}
+		x.vc.assume(tImp(st.pc, g))
+	}
+	for _, e := range extraEns {
+		g, err := env.assuming().evalBool(e.Expr)
+		if err != nil {
+			x.vc.diag("%s: callee %s ensures %q: %v", fr.fn.String(), calleeKey, e.Text, err)
+			continue
+		}
+		x.vc.diag("%s: assumed for calls to %s: %s", fr.fn.String(), calleeKey, e.Text)
 		x.vc.assume(tImp(st.pc, g))
 	}
 	if c.Sticky && len(res) == 1 && len(args) > 0 && len(args[0].L) == 1 && len(res[0].L) == 1 {
